@@ -8,6 +8,7 @@ R4 a reservation is released only for a transaction that actually left the pool 
 R3 bundling failure leaves the pool unchanged: after the draining call in bundle_block no None exit is reachable
    without re-inserting into Mempool.transactions
 """
+from .. import gate
 from ..expr import Chaser, call_name, calls_in, has_field, show, walk
 from ..fields import FieldAnalysis
 from ..paths import Explorer, describe_path
@@ -77,6 +78,7 @@ def run(prog, tier, extra=None):
     R5 = res.rule("C14.cached-work", "the cached routing work of the pool is reset or adjusted whenever pooled transactions are removed or inserted", floor=4)
     R6 = res.rule("C14.revalidate", "the pool is re-validated against the ledger on every block addition", floor=2)
     R3 = res.rule("C14.bundle-atomic", "bundle_block: no failure exit after the pool was drained without re-insertion", floor=1)
+    R7 = res.rule("C14.refused-block-restored", "a refused block's transactions are offered back to the pool's insertion point: add_block_failure cannot finish, once it holds the block, without add_block_transactions_back", floor=1)
     fa = FieldAnalysis(prog)
     tx_sites, map_sites, map_sites_through = {}, {}, {}
     for b in prog.all_bodies():
@@ -441,6 +443,39 @@ def run(prog, tier, extra=None):
                             bb_body.loc(x)))
         if not sources:
             res.sample({"rule": R3, "drain": bb_body.loc(s[1]), "verdict": "no failure exit after the drain without re-insertion"})
+
+    # R7: "bundling yields a valid block or leaves the pool unchanged": the drained transactions travel in the block; when the
+    # node refuses that block, add_block_failure must hand them back (add_block_transactions_back -> insertion point, which drops
+    # only those that really conflict). The only exit that may skip it is "the block is not in Blockchain.blocks".
+    from ..expr import has_call as _hc7
+    abf = prog.body(CORE + "consensus::blockchain::Blockchain::add_block_failure::{closure#0}")
+    if abf is None:
+        raise LookupError("Blockchain::add_block_failure not found")
+    ch7 = Chaser(abf)
+    back = {bb for bb, t in abf.calls() if ((t.get("res") or t.get("callee") or "").replace("::{closure#0}", "")).endswith("Blockchain::add_block_transactions_back")}
+    res.instance(R7)
+    if not back:
+        res.add(Finding(R7, "C14.refused-block-restored|not-called", "add_block_failure no longer calls add_block_transactions_back: the transactions bundled into a refused block are lost", abf.loc(0)))
+    else:
+        def taken_block(e):
+            return any(x[0] in ("call", "via") and x[1].rsplit("::", 1)[-1] in ("remove", "remove_entry", "get", "get_mut") for x in walk(e)) and has_field(e, "blockchain::Blockchain", "blocks")
+        missing = set()
+        isn = gate.bool_switch_edges(abf, ch7, lambda e: e[0] == "call" and e[1].rsplit("::", 1)[-1] == "is_none" and "Option" in e[1] and taken_block(e))
+        iss = gate.bool_switch_edges(abf, ch7, lambda e: e[0] == "call" and e[1].rsplit("::", 1)[-1] == "is_some" and "Option" in e[1] and taken_block(e))
+        missing |= isn["true"] | iss["false"]
+        for bb, blk in enumerate(abf.blocks):
+            t = blk["t"]
+            if t["k"] == "switch":
+                e = ch7.origin(t["discr"])
+                if e[0] == "discr" and taken_block(e[1]):
+                    missing |= gate.variant_edges(abf, bb, 0)
+        f7 = Explorer(abf).explore(0, deleted_edges=missing, blocked=back, accept=lambda bb, env: "return" if abf.term(bb)["k"] == "return" else None)
+        if f7:
+            kind, path = sorted(f7.items())[0]
+            res.add(Finding(R7, "C14.refused-block-restored|skipped", "add_block_failure can finish without add_block_transactions_back although it holds the refused block: every "
+                            "transaction that was bundled into it is lost, not only those that conflict with the pool", abf.loc(path[-1]), {"path": describe_path(abf, path)}))
+        else:
+            res.sample({"rule": R7, "call": [abf.loc(x) for x in sorted(back)], "exempt_edges": len(missing), "verdict": "skipped only when the block is not stored"})
 
     # "the pool holds only transactions that are valid against the ledger": nothing enters it around Transaction::validate
     from ._include import include
